@@ -61,10 +61,13 @@ def run(res):
     P.canonical(driver, cases)
     total = {"pairs": 0, "impl_disagreements": 0}
     for backend, levels in BACKENDS:
-        st = P.validate(res, PROP, cases, backend, levels, profiles=("debug",), dump=None,
+        # the engine models the theorems of Props/C08.v are about run under the same faulty environment
+        dump = {"ir": "ir", "bc": ("bc", 2, True)}.get(backend)
+        st = P.validate(res, PROP, cases, backend, levels, profiles=("debug",), dump=dump,
                         what="event sequence under the injected I/O fault", max_report=2)
         total["pairs"] += st["pairs"]
         total["impl_disagreements"] += st["impl_disagreements"]
+        total["model_disagreements"] = total.get("model_disagreements", 0) + st["tv_disagreements"] + st["engine_disagreements"]
     stopped = sum(1 for c in cases if c.canon.startswith("stopped"))
     res.coverage.update({
         "evaluations": total["pairs"],
@@ -74,7 +77,10 @@ def run(res):
         "fault_kinds": kinds, "programs": len(base), "fault_cases": len(cases), "canonically_stopped": stopped,
         "stats": total, "distribution": P.distribution(base), "backends": BACKENDS,
     })
-    res.assumptions += ["faults are injected through the Read/Write objects given to runtime::Context::new; refusals alternate Ok(0) and Err",
+    res.coverage["theorems"] = ["C08_canonical_failure_is_last", "C08_ir_failure_is_last", "C08_bc_failure_is_last",
+                                "C01_level0 (Stopped outcomes)", "C04_inplace_canonical", "C03_input_template", "C03_output_template"]
+    res.assumptions += ["Props/C08.v: in BF.v, IR.v and BC.v a stopped run has exactly one failure event, the last one (none when the input is absent), and any other run has none; IR.v and BC.v are run on the dumped IR/bytecode under every injected fault and compared with the implementation (stats.model_disagreements)",
+                        "faults are injected through the Read/Write objects given to runtime::Context::new; refusals alternate Ok(0) and Err",
                         "LLVM backend not built (needs LLVM 17), so src/exec/llvmjit.rs is not exercised"]
     if broken and not res.violations:
         res.violation("proof side of C08 no longer checks: " + "; ".join(broken)[:1500],
